@@ -182,8 +182,9 @@ def ref_step(p, h, lam, N, u):
     return E * u + h * ((p1 - 3 * p2 + 4 * p3) * N(u) + (2 * p2 - 4 * p3) * (N(a) + N(b)) + (-p2 + 4 * p3) * N(c))
 
 
-def t_phi_step(p, z, dt, seed):
-    """one mode with symbol z/dt (plus two bystander modes): step_fourier vs the phi-tableau"""
+def t_phi_step(p, z, dt, seed, radius=1.0, M=16):
+    """one mode with symbol z/dt (plus two bystander modes): step_fourier vs the phi-tableau; radius / M: non-default contour
+    (circle_radius, num_circle_points) - the coefficients must not depend on the contour beyond its quadrature error"""
     ex, jnp = _ex()
     rng = np.random.default_rng(seed)
     lam = np.asarray([complex(*z) / dt, -0.7 / dt, 0.3j / dt])
@@ -192,13 +193,13 @@ def t_phi_step(p, z, dt, seed):
     if p == 0:
         integ = ex.etdrk.ETDRK0(dt, jnp.asarray(lam)[None, :])
     else:
-        integ = getattr(ex.etdrk, f"ETDRK{p}")(dt, jnp.asarray(lam)[None, :], test_nl)
+        integ = getattr(ex.etdrk, f"ETDRK{p}")(dt, jnp.asarray(lam)[None, :], test_nl, num_circle_points=M, circle_radius=radius)
     got = np.asarray(integ.step_fourier(jnp.asarray(u)[None, :]))[0]
     exp = ref_step(p, dt, lam, nl_np, u)
     if not np.all(np.isfinite(got)):
         return False, f"non-finite step result {got}"
     err = np.max(np.abs(got - exp)) / (1 + np.max(np.abs(exp)))
-    return err < 2e-10, f"order {p}, z={complex(*z)}: deviation from the phi-tableau {err:.3e}"
+    return err < 2e-10, f"order {p}, z={complex(*z)}, circle_radius={radius}, num_circle_points={M}: deviation from the phi-tableau {err:.3e}"
 
 
 def _problem(name, order, dt):
@@ -271,6 +272,11 @@ def witness(ctx):
     for p in (0, 1, 2, 3, 4):
         for z in zs:
             ctx.check("phi_step", dict(p=p, z=[z.real, z.imag], dt=0.25, seed=ctx.seed), nontrivial=(z != 0 or p > 0))
+    # non-default contours (moderate |z|: a larger or smaller circle changes the quadrature error only at rounding level with enough points)
+    for p in (1, 2, 3, 4):
+        for radius, M in ((2.0, 32), (0.5, 32)) + (((1.5, 64), (3.0, 64)) if ctx.deep else ()):
+            for z in (complex(-0.8, 0.0), complex(0.0, 1.3), complex(-0.3, -2.1), 0j):
+                ctx.check("phi_step", dict(p=p, z=[z.real, z.imag], dt=0.25, seed=ctx.seed, radius=radius, M=M))
     from .. import registry
     NS = {1: 16, 2: 8, 3: 6}
     for j, name in enumerate(sorted(registry.classes())):
